@@ -338,6 +338,10 @@ def svd_truncated(
             U.blocks.pop((c0, c1))
             s.blocks.pop(c1)
             VH.blocks.pop((c1, c1))
+            if isinstance(U, FermionicArray):
+                # and any lazy phases recorded for it
+                U.phases.pop((c0, c1), None)
+                VH.phases.pop((c1, c1), None)
             continue
 
         # slice the values and left and right vectors
